@@ -34,6 +34,8 @@ def _layout_ops(v, pname):
             a, b = _layout_ops(v.body, pname), _layout_ops(v.orelse, pname)
             if a is None or b is None:
                 return None
+            if a == b:
+                return ops + a
             return ops + ([f"if {U(v.test)}: {a}"] if a else []) + ([f"if not {U(v.test)}: {b}"] if b else [])
         if isinstance(v, ast.Name):
             return ops if v.id == pname else None
@@ -91,13 +93,18 @@ def _input_layout(fn, construct):
             if isinstance(s_, ast.Assign) and len(s_.targets) == 1 and isinstance(s_.targets[0], ast.Name) \
                     and any(isinstance(n, ast.Name) and n.id == pname for n in ast.walk(s_.value)):
                 conv.append((test, s_.targets[0].id, s_.value, s_.lineno))
-    if not arms:
-        # no dispatch on the container type: a single conversion serves every input, so the layout cannot differ
+    if len(conv) < 2:
+        # no dispatch statement on the container type: one conversion (possibly a two-way expression) serves every input; the
+        # two ways of a conditional expression must not differ in layout operations
         single = [s_ for s_ in fn.body if isinstance(s_, ast.Assign) and len(s_.targets) == 1 and isinstance(s_.targets[0], ast.Name)
                   and _layout_ops(s_.value, pname) is not None]
         if len(single) == 1:
-            return struct_ob("input-layout", construct, True, "", REL, single[0].lineno,
-                             slots={"arms": [{"test": "always", "conversion": U(single[0].value)}]})
+            ops = _layout_ops(single[0].value, pname)
+            split = [o for o in ops if o.startswith("if ")]
+            return struct_ob("input-layout", construct, not split,
+                             f"the two ways of `{U(single[0].value)[:160]}` lay the sample out differently: {split} - a (draws x variables) "
+                             f"sample given as a nested sequence is treated differently from the same sample as an array",
+                             REL, single[0].lineno, slots={"arms": [{"test": "always", "conversion": U(single[0].value), "layout_ops": ops}]})
     if len(conv) < 2 or len({c[1] for c in conv}) != 1:
         raise AnalysisError(f"anchor vanished: input-type dispatch of sample_hdi ({len(conv)} conversions of `{pname}`)")
     layouts = []
